@@ -2,7 +2,7 @@
     Property theorems only. *)
 From Coq Require Import ZArith List Bool.
 From PV Require Import Model.Base Model.Sched Model.Seq.
-From PV Require Gen.Pure Gen.PureLoops Gen.PureSlot Model.Chan Proofs.PureEq Proofs.PureLoopsEq Proofs.PureSlotEq.
+From PV Require Gen.Pure Gen.PureLoops Gen.PureSlot Gen.PureState Model.Chan Proofs.PureEq Proofs.PureLoopsEq Proofs.PureSlotEq Proofs.PureStateEq.
 From PV Require Import Proofs.SchedInv Proofs.ConflictSpec Proofs.RetargetSpec Proofs.RetargetWitness.
 Import ListNotations.
 Open Scope Z_scope.
@@ -131,3 +131,18 @@ Theorem C10_source_make_next_pulse_slot :
              (negb (negb (proto =? 1))) (proto =? 2) dp (p_phase p) (p_dur p) (en_max e) block)).
 Proof. exact PureSlotEq.make_next_pulse_slot_eq. Qed.
 Print Assumptions C10_source_make_next_pulse_slot.
+
+(** ... and the retarget itself: the model's [add_target] and [wait_for_fall] ARE
+    the monadic functions regenerated from the current source of
+    _Schedule.add_target / _Schedule.wait_for_fall, on every state. *)
+Theorem C10_source_add_target :
+  forall (e : env) (qs : list Z) (n : Z) (s : sched),
+    Gen.PureState.gen_add_target e qs n s = add_target e qs n s.
+Proof. exact PureStateEq.add_target_eq. Qed.
+Print Assumptions C10_source_add_target.
+
+Theorem C10_source_wait_for_fall :
+  forall (e : env) (n : Z) (s : sched),
+    Gen.PureState.gen_wait_for_fall e n s = wait_for_fall e n s.
+Proof. exact PureStateEq.wait_for_fall_eq. Qed.
+Print Assumptions C10_source_wait_for_fall.
